@@ -432,3 +432,36 @@ pub fn uses_menu(rs: &[Reg]) -> bool {
         _ => false,
     })
 }
+
+pub fn all_tags(rs: &[Reg], out: &mut Vec<u32>) {
+    for r in rs {
+        match r {
+            Reg::Sys { tag, .. } | Reg::Tl { tag, .. } => out.push(*tag),
+            Reg::Batch { tag, inner, .. } => { out.push(*tag); all_tags(inner, out); }
+            _ => {}
+        }
+    }
+}
+
+/// programs for the execution suite: well-formed, moderately sized, conflict-rich
+pub fn gen_exec(rng: &mut Rng, tl_in_batch: bool) -> Vec<Reg> {
+    let n_res = 1 + rng.below(6);
+    let p = GenParams {
+        max_sys: 0,
+        n_res,
+        res_base: if rng.chance(1, 3) { 8 } else { 0 },
+        p_dep: [0, 15, 40][rng.below(3) as usize],
+        p_barrier: [0, 5, 15][rng.below(3) as usize],
+        p_tl: [0, 5, 12][rng.below(3) as usize],
+        p_batch: [0, 10, 25][rng.below(3) as usize],
+        p_menu: [0, 20][rng.below(2) as usize],
+        p_unnamed: 10,
+        p_weird_name: 0,
+        malformed: false,
+        tl_in_batch,
+        max_depth: 2,
+    };
+    let n = match rng.below(10) { 0..=5 => 1 + rng.below(8), 6..=8 => 5 + rng.below(15), _ => 15 + rng.below(30) };
+    let mut g = Gen { rng, next_tag: 0 };
+    g.level(&p, 0, n)
+}
